@@ -30,6 +30,17 @@ def main(argv):
         stdin = (rec["input"] + "\n").encode("latin-1")
     elif rec.get("stdin") is not None:
         stdin = (rec["stdin"] + "\n").encode("latin-1")
+    if rec.get("regen"):
+        # the stream is rebuilt from its generator seed, the baseline output is the model's
+        import importlib
+        mod = importlib.import_module("dverif.props." + rec["regen"]["module"])
+        _a0, stdin, model = mod.regen(rec)
+        rec = dict(rec)
+        if not (rec.get("env") or {}).get("VERIF_READ_SCHED"):
+            rec["expected_bytes"] = model
+        else:
+            rb = core.run(args, stdin=stdin, env={}, cpu=120, wall=600)
+            rec["expected_bytes"] = rb.out
     files = rec.get("files") or {}
     tmpd = None
     if files:
@@ -39,7 +50,14 @@ def main(argv):
             with open(os.path.join(tmpd, name), "wb") as fp:
                 fp.write(bytes.fromhex(hx))
         args = [a.replace("{dir}", tmpd) for a in args]
-    r = core.run(args, stdin=stdin, env=rec.get("env") or {}, cpu=30, wall=120)
+    r = core.run(args, stdin=stdin, env=rec.get("env") or {}, cpu=120 if rec.get("regen") else 30, wall=600)
+    if rec.get("expected_bytes") is not None:
+        same = r.out == rec["expected_bytes"]
+        print("command  :", core.shq(args), "< regenerated stream of %d bytes" % len(stdin))
+        print("exit     : rc=%s signal=%s sanitizer=%s" % (r.rc, r.sig, r.san_kind()))
+        print("verdict  :", "NOT-REPRODUCED (output equals the reference)" if same and not r.san_kind() else
+              "REPRODUCED (%d output bytes, reference %d)" % (len(r.out), len(rec["expected_bytes"])))
+        return 0
     out = r.out.decode("latin-1")
     print("command  :", core.shq(args))
     print("exit     : rc=%s signal=%s sanitizer=%s" % (r.rc, r.sig, r.san_kind()))
